@@ -100,6 +100,14 @@ impl StrategyPlanner {
         } else {
             // For files, check existence and file info
             match transport.file_info(&dest_path).await {
+                // A directory never satisfies a source file, whatever size and mtime its
+                // inode reports: plan the update, which then fails visibly instead of
+                // being skipped
+                Ok(_)
+                    if matches!(transport.metadata(&dest_path).await, Ok(meta) if meta.is_dir()) =>
+                {
+                    (SyncAction::Update, None, None)
+                }
                 Ok(dest_info) => {
                     // Compute checksums if verifier is present and files are local
                     let (source_cksum, dest_cksum) = if let Some(ref verifier) = self.verifier {
